@@ -610,11 +610,41 @@ def _shape_complete(ctx, tracker):
             func = index.find_method(server, sub.func.attr)
             if func is not None:
                 preds.append(func)
-    ctx.require(len(preds) >= 2, 'admission predicates called by the leaf '
+    ctx.require(len(preds) >= 1, 'admission predicates called by the leaf '
                                  'placement')
     required = set()
     for func in preds:
         required |= _reads(index, func, func.params()[1], attr_cls, app_cls)
+    # ... and what the leaf placement itself tests of the instance (a
+    # predicate spelled out in place or through an expression helper)
+    papp = put.params()[1]
+    pgraph = ctx.cfg(put)
+    pstores = [n for n in pgraph.nodes if n.kind == 'stmt' and
+               isinstance(n.ast, ast.Assign) and any(
+                   isinstance(t, ast.Subscript) and
+                   N.txt(t.value) == 'self.apps' for t in n.ast.targets)]
+    for node in pgraph.nodes:
+        if node.kind != 'test' or node.ast is None:
+            continue
+        # a test guards the placement when only one of its outcomes leads
+        # to the store
+        sides = [any(s_ in C.reach([e.dst], edge_ok=C.no_exc)
+                     for s_ in pstores)
+                 for e in node.succ if e.kind in ('true', 'false')]
+        if len(sides) != 2 or sides[0] == sides[1]:
+            continue
+        if any(isinstance(e.dst.ast, ast.Assert) for e in node.succ):
+            continue        # an assertion, not an admission decision
+        for sub in ast.walk(node.ast):
+            if isinstance(sub, ast.Attribute):
+                chain = []
+                cur = sub
+                while isinstance(cur, ast.Attribute):
+                    chain.append(cur.attr)
+                    cur = cur.value
+                if isinstance(cur, ast.Name) and cur.id == papp:
+                    required |= _expand(index, tuple(reversed(chain)),
+                                        attr_cls, app_cls, 0, set())
     # also the Node-level versions (Bucket walk)
     for name in set(f.name for f in preds):
         func = index.find_method(node_cls, name)
